@@ -169,7 +169,10 @@ def build() -> Check:
                     rel.append((f"{it_.key()} released as success although the call failed", t))
                 if a.data["outcome"] == "ok":
                     f = [e for e in seg if e.kind == "FETCH"]
-                    if not f or seg.index(f[0]) > seg.index(sets[0]):
+                    out_k = f"output#{a.data['n']}"
+                    nothing_to_merge = any(out_k in k and k.endswith("operations)") and v is False for k, v in t.pc) and \
+                        any(out_k in k and "next_marker" in k and v is False for k, v in t.pc)
+                    if (not f or seg.index(f[0]) > seg.index(sets[0])) and not (nothing_to_merge and not f):
                         rel.append((f"{it_.key()} released before the response was merged", t))
             if a.data["outcome"] == "fails" and [e for e in evs if e.kind == "API"]:
                 after.append(("another API call is made after a failed one", t))
